@@ -18,15 +18,22 @@ import (
 
 func c07Loaded(meta *Meta) {
 	for _, scheme := range []string{"x-api-key", "X-Key", "x_key", "key", "x-"} {
-		for _, level := range []string{"operation", "document"} {
+		for _, level := range []string{"operation", "document", "operation-overrides-with-empty-list", "operation-overrides-with-empty-requirement"} {
 			for _, yaml := range []bool{false, true} {
 				sec := fmt.Sprintf(`[{%q: []}]`, scheme)
 				opSec, docSec := "", ""
-				if level == "operation" {
+				switch level {
+				case "operation":
 					opSec = `"security": ` + sec + `,`
-				} else {
+				case "document":
 					docSec = `"security": ` + sec + `,`
+				case "operation-overrides-with-empty-list":
+					// the operation's own (empty) list replaces the document's: no authentication needed
+					docSec, opSec = `"security": `+sec+`,`, `"security": [],`
+				default:
+					docSec, opSec = `"security": `+sec+`,`, `"security": [{}],`
 				}
+				noAuth := level != "operation" && level != "document"
 				text := `{"openapi":"3.0.3","info":{"title":"t","version":"1"},` + docSec + `"paths":{"/p":{"get":{` + opSec +
 					`"parameters":[{"name":"x-id","in":"query","required":true,"schema":{"type":"integer"}}],"responses":{"200":{"description":"ok"}}}}},` +
 					`"components":{"securitySchemes":{` + fmt.Sprintf("%q", scheme) + `:{"type":"apiKey","in":"header","name":"X-Auth"}}}}`
@@ -63,12 +70,15 @@ func c07Loaded(meta *Meta) {
 							return errors.New("denied")
 						}}
 						verr := openapi3filter.ValidateRequest(context.Background(), &openapi3filter.RequestValidationInput{Request: req, PathParams: pp, Route: route, Options: opts})
-						want := accept && target == "/p?x-id=5"
+						want := (accept || noAuth) && target == "/p?x-id=5"
 						if (verr == nil) != want {
 							meta.GoViolation = append(meta.GoViolation, map[string]any{"signature": "loaded-document:verdict", "cases": []any{desc},
 								"go_observation": fmt.Sprintf("target %s, callback accepts=%v: got error %v", target, accept, verr),
 								"judgement": "a document that went through the loader: the request is judged by its declared security requirement and parameter"})
-						} else if asked == 0 && target == "/p?x-id=5" {
+						} else if noAuth && asked > 0 {
+							meta.GoViolation = append(meta.GoViolation, map[string]any{"signature": "loaded-document:callback-asked-although-the-operation-needs-no-authentication", "cases": []any{desc},
+								"go_observation": "the authentication callback was asked about the document-level scheme", "judgement": "an operation-level empty security list / empty requirement replaces the document's requirements"})
+						} else if !noAuth && asked == 0 && target == "/p?x-id=5" {
 							meta.GoViolation = append(meta.GoViolation, map[string]any{"signature": "loaded-document:callback-not-asked", "cases": []any{desc},
 								"go_observation": "the authentication callback was never asked about the scheme", "judgement": "the declared requirement was not evaluated"})
 						}
